@@ -144,6 +144,44 @@ def symbol_mutants(rnd):
     return out
 
 
+def stmt_pool():
+    """the statement pool of Lang.tla (Stmts), for programs longer than TLC enumerates; the reference
+    verdict of such a program is computed by LangTrace (Lang!Errors is defined for any length)"""
+    def V(n):
+        return {"op": "var", "n": n}
+
+    def Ap(f, *args):
+        return {"op": "app", "f": f, "args": list(args)}
+    W = {"op": "wild", "id": []}
+    none = {"op": "none"}
+    x, y = V("x"), V("y")
+    TP = [x, y, W, Ap("c"), Ap("f", x), Ap("f", y), Ap("f", Ap("f", x)), Ap("g", x, y), Ap("h", x), Ap("Cons", x), Ap("Nil")]
+    QA = [x, y, W, Ap("f", x)]
+    EQT = [x, y, Ap("f", x), Ap("f", y), Ap("c"), Ap("g", x, y), Ap("h", x), Ap("Cons", x)]
+    DT = [t for t in TP if t["op"] == "app"]
+    preds = [{"t": "pred", "p": "p", "args": [a]} for a in TP] + [{"t": "pred", "p": "q", "args": [a, b]} for a in QA for b in QA] \
+        + [{"t": "pred", "p": "z", "args": []}]
+    eqs = [{"t": "eq", "l": a, "r": b} for a in EQT for b in EQT]
+    ifs = preds + eqs + [{"t": "def", "v": none, "tm": a} for a in DT] + [{"t": "vt", "v": v, "ty": ty} for v in (x, y) for ty in ("A", "B", "E")]
+    thens = preds + eqs + [{"t": "def", "v": v, "tm": a} for v in (none, x, y) for a in DT]
+    return [{"k": "if", "a": a} for a in ifs], [{"k": "then", "a": a} for a in thens]
+
+
+def long_programs(rnd, n, lengths=(3, 4)):
+    """seeded random rules of 3-4 statements, biased towards well-formed ones: statements are drawn
+    from the pool, `if` statements first with probability 0.7 per position"""
+    ifs, thens = stmt_pool()
+    out = []
+    for _ in range(n):
+        ln = rnd.choice(lengths)
+        prog = []
+        for i in range(ln):
+            p_if = 0.85 if i == 0 else (0.6 if i < ln - 1 else 0.2)
+            prog.append(rnd.choice(ifs) if rnd.random() < p_if else rnd.choice(thens))
+        out.append(prog)
+    return out
+
+
 def run(tier, replay):
     v = vlib.Verdict(PROP, tier, "exploration")
     vlib.cargo_build(["eqlogc"])
@@ -180,6 +218,7 @@ def run(tier, replay):
         vx = {"op": "var", "n": "x"}
         chosen.append([{"k": "then", "a": {"t": "def", "v": vx, "tm": {"op": "app", "f": "f", "args": [vx]}}},
                        {"k": "then", "a": {"t": "eq", "l": vx, "r": vx}}])
+        chosen += long_programs(rnd, 3000 if thorough else 150)
         for prog in chosen:
             items.append(({"ev": "prog", "prog": prog}, render(prog)))
         for label, text, kind, classes, line in symbol_mutants(rnd):
